@@ -10,7 +10,7 @@ use serde_json::json;
 pub fn meta() -> Meta {
     Meta {
         level: "exploration",
-        rule: "the program spaces of C04 (spines over 16 contexts x ~65 leaves, statement sequences, all two- and three-operator trees over 19 binary operators in both/all groupings, unary x binary x postfix interactions, 12 expression positions), each printed with exactly the parentheses the OpenQASM 3 table requires, with full and with redundant parentheses, spaced and tight; the S-expression read from the tree through the public typed accessors must equal the one computed from the model; non-trivial = accepted programs; outcomes = distinct S-expressions",
+        rule: "the program spaces of C04 (spines over 17 contexts x ~65 leaves, statement sequences, all two- and three-operator trees over 19 binary operators in both/all groupings, unary x binary x postfix interactions, 12 expression positions), each printed with exactly the parentheses the OpenQASM 3 table requires, with full and with redundant parentheses, spaced and tight; the S-expression read from the tree through the public typed accessors must equal the one computed from the model; non-trivial = accepted programs; outcomes = distinct S-expressions",
         assumptions: vec![
             "programs the parser rejects are C04's business and are skipped here (counted)",
             "R-prec (precedence table as data) is self-tested: printing with minimal parentheses and re-grouping by the table is the identity on all two-operator trees",
